@@ -91,7 +91,9 @@ def soundness(out, klass, pairs, a, b, A, B, snapA, snapB):
         got.append((t, u))
     for i in range(len(got)):
         for j in range(i + 1, len(got)):
-            if abs(got[i][0] - got[j][0]) <= F(1, 10 ** 9) and abs(got[i][1] - got[j][1]) <= F(1, 10 ** 9):
+            # the library merges pairs closer than 1e-9 (Euclidean); near a tangential contact Newton leaves clusters
+            # around that radius, so only pairs that coincide to 1e-12 are called duplicates
+            if abs(got[i][0] - got[j][0]) <= F(1, 10 ** 12) and abs(got[i][1] - got[j][1]) <= F(1, 10 ** 12):
                 out.fail("duplicate-pair", klass, f"pairs {pairs[i]} and {pairs[j]}")
                 return None
     return got
